@@ -1,5 +1,6 @@
 import PycsepVerif.Proto
 import PycsepVerif.Model.CatalogEvals
+import PycsepVerif.Model.Resample
 /-!
   Driver ops for C10 (all prefixed `c10_`).  A grid travels as the flat row-major list of its C·K counts,
   a forecast as `;`-separated flat grids, resampling draws as `;`-separated histograms (K counts each).
@@ -94,6 +95,14 @@ def handle : List String → Option String
       | some l => showList showQVal (calibrationSample l (d1 = "1")) | none => "bad-op")
   | ["c10_ks", qs] => some (match parseList? parseRat? qs with
       | some l => showRat (ksUniform l) | none => "bad-op")
+  -- resampling step: `c10_resample MAGS UNION US1;US2;…` (magnitude edges and uniforms as exact rationals) →
+  -- `H1;H2;…|centresOK|sumsOK`
+  | ["c10_resample", mags, union, uss] => some (
+      match parseList? parseRat? mags, parseList? parseNat? union, parseList2? parseRat? uss with
+      | some ms, some u, some us =>
+        let hs := resampleDraws ms u us
+        ";".intercalate (hs.map (showList toString)) ++ "|" ++ toString (centresOK ms)
+      | _, _, _ => "bad-op")
   | ["c10_lgamma1", x] => some (match parseFloat? x with
       | some v => showFloat (lgamma1Float v) | none => "bad-op")
   | _ => none
